@@ -86,6 +86,15 @@ func (c08) Gen(r *rand.Rand, tier string, idx int) *core.Plan {
 			p.Ops = append(p.Ops, core.Op{Task: t, Kind: "verify", I: []int64{int64(r.IntN(len(c08Refs)))}})
 		}
 	}
+	// the verifier object is long-lived (one per document) in half of the plans, and then asked about the same
+	// artifact digest under several references in a row
+	w["live"] = int64(r.IntN(2))
+	if w["live"] == 1 {
+		t := r.IntN(ntasks)
+		for i := 0; i < 2+r.IntN(3); i++ {
+			p.Ops = append(p.Ops, core.Op{Task: t, Kind: "verify", I: []int64{int64(r.IntN(len(c08Refs)))}})
+		}
+	}
 	p.Tape = core.Tape(r, 40, 0.4)
 	return p
 }
@@ -186,6 +195,8 @@ func (l c08) Exec(env *core.Env) *core.Result {
 	}
 	nst := len(frozen.TrustPolicies)
 	shared := cloneOCI(frozen, identityPerm(nst))
+	var liveV notation.Verifier // the verifier built for liveDoc, kept while the document object stays the same
+	var liveDoc *trustpolicy.OCIDocument
 	// blob documents
 	mkBlob := func() *trustpolicy.BlobDocument {
 		var sts []trustpolicy.BlobTrustPolicy
@@ -312,7 +323,17 @@ func (l c08) Exec(env *core.Env) *core.Result {
 				case "verify":
 					path := c08Refs[int(op.Int(0))%len(c08Refs)]
 					want := specSelect(frozen, path)
-					v, err := verifier.NewVerifierWithOptions(world.NewScriptedStore(), verifier.VerifierOptions{OCITrustPolicy: shared, RevocationCodeSigningValidator: &world.ScriptedValidator{}, RevocationTimestampingValidator: &world.ScriptedValidator{}})
+					var v notation.Verifier
+					var err error
+					if w["live"] == 1 && liveV != nil && liveDoc == shared {
+						v = liveV
+						res.Probe("long_lived_verifier_reused")
+					} else {
+						v, err = verifier.NewVerifierWithOptions(world.NewScriptedStore(), verifier.VerifierOptions{OCITrustPolicy: shared, RevocationCodeSigningValidator: &world.ScriptedValidator{}, RevocationTimestampingValidator: &world.ScriptedValidator{}})
+						if err == nil {
+							liveV, liveDoc = v, shared
+						}
+					}
 					if err != nil {
 						res.Violate("C08/valid-document-refused", "", "NewVerifierWithOptions: %v", err)
 						continue
